@@ -15,9 +15,9 @@ variable {σ : Type}
 /-- `read_bom` fails only with the schedule's first fatal error, and otherwise leaves it ahead. -/
 theorem readBom_fault (s : Sched) :
     (∃ k, (readBom s).1 = .error k ∧ Sched.firstFail s = some k) ∨
-    (isOk (readBom s).1 = true ∧ Sched.firstFail (readBom s).2 = Sched.firstFail s) := by
+    (rdIsOk (readBom s).1 = true ∧ Sched.firstFail (readBom s).2 = Sched.firstFail s) := by
   induction s with
-  | nil => right; simp [readBom, isOk, Sched.firstFail]
+  | nil => right; simp [readBom, rdIsOk, Sched.firstFail]
   | cons e s ih =>
     cases e with
     | intr => simpa [readBom, Sched.firstFail] using ih
@@ -27,7 +27,7 @@ theorem readBom_fault (s : Sched) :
       by_cases h0 : bs.length = 0
       · simpa [h0] using ih
       · by_cases h3 : bs.length ≥ 3
-        · right; simp [h0, h3, isOk, firstFail_pushRest]
+        · right; simp [h0, h3, rdIsOk, firstFail_pushRest]
         · simpa [h0, h3] using ih
 
 /-- with a fatal error ahead, reading lines ends in exactly that error: `read_line` never reports
@@ -116,7 +116,7 @@ theorem read_fault_surfaces (D : LineDecoder σ) (s : Sched) (k : IoKind)
       rw [hb] at h1 h2
       simp only at h1 h2
       cases r with
-      | error k' => simp [isOk] at h1
+      | error k' => simp [rdIsOk] at h1
       | ok enc =>
         simp only []
         rw [h2, h]
@@ -173,7 +173,7 @@ theorem decode_err_only_from_reader_partial (D : LineDecoder σ) (s : Sched) (k 
         rw [hb] at h h1 h2
         simp only at h h1 h2
         cases r with
-        | error k' => simp [isOk] at h1
+        | error k' => simp [rdIsOk] at h1
         | ok enc =>
           simp only [] at h
           rw [h2, hf] at h
